@@ -9,6 +9,8 @@ import (
 	"strings"
 
 	cpctypes "github.com/EscanBE/evermint/v12/x/cpc/types"
+	abci "github.com/cometbft/cometbft/abci/types"
+	sdk "github.com/cosmos/cosmos-sdk/types"
 	stakingtypes "github.com/cosmos/cosmos-sdk/x/staking/types"
 	"github.com/ethereum/go-ethereum/common"
 	"github.com/ethereum/go-ethereum/core/vm"
@@ -192,6 +194,8 @@ func oracleC03(w *World, rec *BlockRecord, t *TxInfo) {
 	}
 	sender := t.From
 	pre, post := ViewOf(t.Obs.Before), ViewOf(t.Obs.After)
+	// --- observation 3 (used below): what the other modules' own events in the transaction result say about the sink
+	evXfer, evMalformed := sinkTransferEvents(t.Res, wit.Sink)
 	if t.Rc.HasErr {
 		// the whole transaction ended with a VM error: only the nonce increment and the fee remain
 		r.Probe("witness_tx_failed_as_a_whole", true)
@@ -200,6 +204,9 @@ func oracleC03(w *World, rec *BlockRecord, t *TxInfo) {
 		}
 		if len(t.Rc.Receipt.Logs) > 0 {
 			r.Violate("C03", "failed_tx_left_log", nil, "the transaction ended with %q but its receipt has %d logs", t.Rc.Err, len(t.Rc.Receipt.Logs))
+		}
+		if evXfer != 0 || evMalformed != "" {
+			r.Violate("C03", "failed_tx_left_module_event", map[string]string{"module": "bank"}, "the transaction ended with %q but its result carries bank events paying the sink (%08b %s)", t.Rc.Err, evXfer, evMalformed)
 		}
 		return
 	}
@@ -248,6 +255,12 @@ func oracleC03(w *World, rec *BlockRecord, t *TxInfo) {
 	} else {
 		stateBits["dele"] = q.Uint64()
 	}
+	if _, ok := stateBits["xfer"]; ok {
+		r.Count("o:c03_witness_module_events_checked")
+		if evMalformed != "" || evXfer != stateBits["xfer"] {
+			r.Violate("C03", "state_and_module_events_disagree", map[string]string{"kind": "xfer"}, "xfer legs: the bank store shows %08b, the bank module's events in the transaction result show %08b %s", stateBits["xfer"], evXfer, evMalformed)
+		}
+	}
 	predicted := map[string]uint64{}
 	present := map[string]bool{}
 	for _, leg := range wit.Legs {
@@ -291,6 +304,56 @@ func oracleC03(w *World, rec *BlockRecord, t *TxInfo) {
 		}
 		r.Probe("witness_reverted_leg_checked", predicted[kind] != (1<<uint(len(wit.Legs)))-1)
 	}
+}
+
+// sinkTransferEvents folds the bank module's events of a transaction result that pay the sink (`transfer` with the
+// sink as recipient and `coin_received` with the sink as receiver must tell the same story) into a bit pattern of
+// leg weights; anything that is not a set of distinct leg weights is described in the second result.
+func sinkTransferEvents(res *abci.ExecTxResult, sink common.Address) (uint64, string) {
+	if res == nil {
+		return 0, ""
+	}
+	want := sdk.AccAddress(sink.Bytes()).String()
+	var pat [2]uint64
+	bad := ""
+	for _, ev := range res.Events {
+		which, who := -1, ""
+		switch ev.Type {
+		case "transfer":
+			which, who = 0, "recipient"
+		case "coin_received":
+			which, who = 1, "receiver"
+		default:
+			continue
+		}
+		to, amt := "", ""
+		for _, a := range ev.Attributes {
+			switch a.Key {
+			case who:
+				to = a.Value
+			case "amount":
+				amt = a.Value
+			}
+		}
+		if to != want {
+			continue
+		}
+		v, ok := new(big.Int).SetString(strings.TrimSuffix(amt, BaseDenom), 10)
+		if !ok {
+			bad = "amount " + amt
+			continue
+		}
+		k, ok := isPow2(v)
+		if !ok || k > 7 || pat[which]&(1<<uint(k)) != 0 {
+			bad = "amount " + amt + " is not a fresh leg weight"
+			continue
+		}
+		pat[which] |= 1 << uint(k)
+	}
+	if pat[0] != pat[1] && bad == "" {
+		bad = fmt.Sprintf("transfer events %08b vs coin_received events %08b", pat[0], pat[1])
+	}
+	return pat[0], bad
 }
 
 func c03AfterBlock(w *World, rec *BlockRecord, txs []*TxInfo) {
